@@ -22,6 +22,12 @@ type Script struct {
 	Transport string                   `json:"transport"`
 	Tun       TunParams                `json:"tun"`
 	Steps     []map[string]interface{} `json:"steps"`
+	// Grp: scripts with the same non-empty group (and configuration) run in this order on one
+	// gateway instance and are never split over instances (re-execution with history)
+	Grp string `json:"grp,omitempty"`
+	// Job / Pos: the instance (job) the script ran on and its position there (set by the runner)
+	Job int `json:"-"`
+	Pos int `json:"-"`
 }
 
 // TunParams describe who opens the tunnel and with which token.
@@ -326,7 +332,7 @@ func (ps *ProtoSession) Open() error {
 	if rd == nil {
 		rd = DefaultRedir()
 	}
-	ps.Lines = append(ps.Lines, M{"ev": "reset", "script": s.ID, "origin": s.Origin, "transport": s.Transport,
+	ps.Lines = append(ps.Lines, M{"ev": "reset", "script": s.ID, "origin": s.Origin, "transport": s.Transport, "job": s.Job, "pos": s.Pos,
 		"cfg": M{"tokenAuth": cfg.TokenAuth, "smartCard": cfg.SmartCard, "redir": rd, "idle": cfg.Idle}})
 	t, rep, err := ps.I.Open(ps.PC.OpenOpts())
 	if err != nil {
